@@ -36,6 +36,7 @@ class DispatchMonitor:
         self.permute_seed = permute_seed
         self.check_claims = check_claims
         self.probes: dict[str, int] = {}
+        self.claims: dict[str, list[str]] = {}  # line -> kinds of its own dispatcher that accept it
         self._global_kinds: set[Any] | None = None
 
     def install(self) -> None:
@@ -72,6 +73,23 @@ class DispatchMonitor:
                 self.problems.append({"oracle": "conservation", "rec": rec,
                                       "detail": f"{len(lines)} lines in, {out} data out, "
                                                 f"{len(recs)} 'unparsable' reports"})
+            if self.check_claims:
+                from chartparse.exceptions import RegexNotMatchError
+
+                with world.shadow():
+                    for line in dict.fromkeys(lines):
+                        if line in self.claims:
+                            continue
+                        claim = []
+                        for t in types_l:
+                            try:
+                                t.from_chart_line(line)
+                                claim.append(t.__qualname__)
+                            except RegexNotMatchError:
+                                pass
+                            except Exception:  # noqa: BLE001 - a recogniser that blows up is not a claim
+                                claim.append("!" + t.__qualname__)
+                        self.claims[line] = claim
             if not rec["events_kinds"] and len(types_l) > 1:
                 with world.shadow():
                     if self.permute_seed is not None:
@@ -91,16 +109,8 @@ class DispatchMonitor:
                                               f"{len(m2[t])} {t.__qualname__} data instead of {len(m[t])}"})
                                 break
                     if self.check_claims:
-                        from chartparse.exceptions import RegexNotMatchError
-
                         for line in dict.fromkeys(lines):
-                            claim = []
-                            for t in types_l:
-                                try:
-                                    t.from_chart_line(line)
-                                    claim.append(t.__qualname__)
-                                except RegexNotMatchError:
-                                    pass
+                            claim = [c for c in self.claims.get(line, []) if not c.startswith("!")]
                             self.probes["lines_tried_on_every_kind"] = self.probes.get("lines_tried_on_every_kind", 0) + 1
                             if len(claim) > 1:
                                 self.problems.append({"oracle": "double-claim", "rec": rec,
